@@ -18,6 +18,9 @@ type caseC14 struct {
 	// Noise selects other API calls made just before Bits (on unrelated objects): what they leave behind in the package must
 	// not matter.
 	Noise int `json:"noise,omitempty"`
+	// Prev: Bits (and a multiplication, which expands its scalar too) is first called on another scalar object holding this
+	// look-alike value.
+	Prev *SV `json:"prev,omitempty"`
 }
 
 func apiNoise(k int) {
@@ -42,6 +45,10 @@ var c14 = gen.Register(&gen.Check[caseC14]{
 		if gen.Chance(t, "noise", 1, 3) {
 			c.Noise = 1 + gen.Pick(t, "noiseKind", 5)
 		}
+		if gen.Chance(t, "prev", 1, 3) {
+			r := RelatedSV(t, c.S)
+			c.Prev = &r
+		}
 		return c
 	},
 	Fixed: func() []caseC14 {
@@ -65,7 +72,7 @@ var c14 = gen.Register(&gen.Check[caseC14]{
 		}
 		return out
 	},
-	Required: []string{"bit255", "mont-domain", "used-object"},
+	Required: []string{"bit255", "mont-domain", "used-object", "after-look-alike"},
 	Run: func(c caseC14, o *gen.Obs) error {
 		want := c.S.Value()
 		s := c.S.Build()
@@ -75,6 +82,10 @@ var c14 = gen.Register(&gen.Check[caseC14]{
 		o.ClassIf(c.S.Hist > 0, "used-object")
 		apiNoise(c.Noise)
 		o.ClassIf(c.Noise > 0, "after-other-calls")
+		if c.Prev != nil {
+			_ = c.Prev.Build().Bits()
+			o.Class("after-look-alike")
+		}
 		before := s.S
 		bits := s.Bits()
 		if s.S != before {
